@@ -57,6 +57,40 @@ class Suite:
             out.extend(self.leaf_paths(f['ty'], prefix + (f['name'],)))
         return out
 
+    def leaf_chains(self, ty, prefix=(), chain=()):
+        """like leaf_paths, with the chain of types walked: [(names, (type of root, ..., leaf type))]"""
+        t = self.types.get(ty)
+        chain = chain + (ty,)
+        if not t or t['crate'] != 'opaque_ke' or t['kind'] != 'struct':
+            return [(prefix, chain)]
+        out = []
+        for f in t['variants'][0]['fields']:
+            out.extend(self.leaf_chains(f['ty'], prefix + (f['name'],), chain))
+        return out
+
+    def role(self, ty, what):
+        """field-name paths identified by *type role*, never by name (private fields may be renamed):
+        'eval' / 'blinded': the voprf element leaf; 'pubkeys': fields of type PublicKey; 'nonces': direct byte-array fields of 32 bytes;
+        'field:<TypeName>': the direct field whose type is <TypeName><...>"""
+        ty = ty.lstrip('&')
+        out = []
+        if what in ('eval', 'blinded'):
+            want = 'voprf::common::EvaluationElement<' if what == 'eval' else 'voprf::common::BlindedElement<'
+            out = [n for n, c in self.leaf_chains(ty) if c[-1].startswith(want)]
+        elif what == 'pubkeys':
+            for n, c in self.leaf_chains(ty):
+                if len(c) >= 2 and '::PublicKey<' in c[-2] and c[-2].startswith('opaque_ke::'):
+                    out.append(n[:-1])
+        elif what == 'nonces':
+            t = self.types.get(ty)
+            if t:
+                out = [(f['name'],) for f in t['variants'][0]['fields'] if f['ty'] == 'generic_array::GenericArray<u8, U32>']
+        elif what.startswith('field:'):
+            t = self.types.get(ty)
+            if t:
+                out = [(f['name'],) for f in t['variants'][0]['fields'] if ('::' + what[6:] + '<') in f['ty'] or f['ty'].startswith(what[6:] + '<')]
+        return out
+
     def param_type(self, body, idx):
         return body['locals'][idx]['ty']
 
